@@ -150,6 +150,9 @@ def solve_obligation(args):
         return rec
     t1 = time.time()
     attempts = [(seed, timeout_ms), (seed + 1, max(1000, timeout_ms // 2))]
+    if rec['kind'] == 'canary':
+        # must NOT be provable; two seconds are plenty for an inconsistency to show
+        attempts = [(seed, min(timeout_ms, 2000))]
     r, reason, n_att = 'unknown', '', 0
     s_ = ctx = None
     for sd, to in attempts:
@@ -251,12 +254,18 @@ def run_env(sp, run, key):
 def run_all(modnames, keys, timeout_ms, seed, opts, workers=16):
     ctx = mp.get_context('fork')
     jobs = [(modnames, k, opts) for k in keys]
-    with ctx.Pool(min(workers, max(1, len(jobs)))) as p:
+    import sys
+    t0 = time.time()
+    with ctx.Pool(workers) as p:
         results = p.map(gen_contract, jobs, chunksize=max(1, len(jobs) // (workers * 8)))
+        if os.environ.get('VERIF_PROFILE'):
+            sys.stderr.write('phase1 %.1fs\n' % (time.time() - t0))
         flat = [(modnames, rec, timeout_ms, seed, opts)
                 for r in results for rec in r['obligations']]
         # hardest first is unknown in advance: plain order, small chunks
         solved = p.map(solve_obligation, flat, chunksize=max(1, min(16, len(flat) // (workers * 4) or 1)))
+    if os.environ.get('VERIF_PROFILE'):
+        sys.stderr.write('phase1+2 %.1fs obligations=%d\n' % (time.time() - t0, len(flat)))
     it = iter(solved)
     for r in results:
         r['obligations'] = [next(it) for _ in r['obligations']]
